@@ -43,7 +43,7 @@ func rangeBody(size int) []byte {
 	return b
 }
 
-func runRangeE2E(dir, backend, in, out, sizes, transport string) error {
+func runRangeE2E(dir, backend, in, out, sizes, transport string, origin416 bool) error {
 	d := &driver{}
 	d.open(dir, backend)
 	defer d.close()
@@ -56,6 +56,27 @@ func runRangeE2E(dir, backend, in, out, sizes, transport string) error {
 	for _, sz := range szs {
 		d.cases[1000+sz] = &Case{ID: 1000 + sz, Status: 200, Sbody: "range", RespItems: []Item{{W: "Cache-Control", V: "max-age=600"},
 			{W: "Content-Type", V: "application/octet-stream"}, {W: "ETag", V: `"v1"`}, {W: "Last-Modified", V: rangeLM.Format(http.TimeFormat)}}}
+	}
+	if origin416 {
+		// an origin that refuses every Range request (416 stating the size) and answers plain requests in full: with
+		// retry_on_range_416 the proxy asks again without Range and serves the client from that answer
+		d.osrv.Config.Handler = http.HandlerFunc(func(w http.ResponseWriter, r *http.Request) {
+			var id int
+			fmt.Sscanf(r.URL.Path, "/c%d/r", &id)
+			body := rangeBodies[id]
+			w.Header().Set("Content-Type", "application/octet-stream")
+			if r.Header.Get("Range") != "" {
+				w.Header().Set("Content-Range", fmt.Sprintf("bytes */%d", len(body)))
+				w.WriteHeader(416)
+				return
+			}
+			// (not storable: every request of the run reaches the origin, also those whose Range the proxy does not parse)
+			w.Header().Set("Cache-Control", "no-store")
+			w.Header().Set("ETag", `"v1"`)
+			w.Header().Set("Last-Modified", rangeLM.Format(http.TimeFormat))
+			w.Header().Set("Content-Length", strconv.Itoa(len(body)))
+			w.Write(body)
+		})
 	}
 	rangeBodies = map[int][]byte{}
 	for _, sz := range szs {
@@ -150,6 +171,7 @@ func runRangeE2E(dir, backend, in, out, sizes, transport string) error {
 	}
 	sc := bufio.NewScanner(fh)
 	sc.Buffer(make([]byte, 1<<20), 1<<24)
+	noAnswers := 0
 	for sc.Scan() {
 		var m map[string]any
 		if err := json.Unmarshal(sc.Bytes(), &m); err != nil {
@@ -160,8 +182,14 @@ func runRangeE2E(dir, backend, in, out, sizes, transport string) error {
 		value := renderRange(p, t)
 		ir, _ := m["ir"].(string)
 		for _, sz := range szs {
+			if noAnswers >= 3 {
+				break // the proxy has stopped answering: the rest would only time out
+			}
 			full := rangeBodies[1000+sz]
 			st, h, body, err := do(sz, value, true, ir)
+			if err != nil {
+				noAnswers++
+			}
 			var o []any
 			switch {
 			case err != nil:
